@@ -1,0 +1,27 @@
+//go:build verif
+
+// Contracts for govc (the /verif contract verifier). Comment-only: with the build tag off this file is not
+// compiled, with it on it adds no code.
+package json
+
+// C24 kernel. matches(v, t): the value v inhabits the type t structurally (Any: everything; union: some alternative;
+// scalar: same TypeID; list: every element matches the element type; object: componentwise).
+//@ spec rec matches(v Value, t Type) bool = t.TypeID == 11 || (t.TypeID == 10 && exists(j, 0, len(t.Union.Alternatives), matches(v, t.Union.Alternatives[j]))) || (t.TypeID <= 6 && v.TypeID == t.TypeID) || (t.TypeID == 7 && v.TypeID == 7 && (len(v.List) == 0 || (t.List.Element != nil && forall(j, 0, len(v.List), matches(v.List[j], deref(t.List.Element)))))) || (t.TypeID == 8 && v.TypeID == 8 && len(v.Struct) == len(t.Struct.Fields) && forall(j, 0, len(v.Struct), matches(v.Struct[j], t.Struct.Fields[j].Type)))
+// wellT: a well-formed type in which every list type has an element type (what JSON schema inference produces).
+//@ spec rec wellT(t Type) bool = 0 <= t.TypeID && t.TypeID <= 11 && (t.TypeID != 10 ==> len(t.Union.Alternatives) == 0) && (t.TypeID == 7 ==> t.List.Element != nil && wellT(deref(t.List.Element))) && forall(j, 0, len(t.Union.Alternatives), wellT(t.Union.Alternatives[j])) && forall(j, 0, len(t.Struct.Fields), wellT(t.Struct.Fields[j].Type))
+// getOctoSQLValue(t, json) = (out, true) only if out inhabits t; a missing field is NULL and fits only the NULL type.
+//@ func getOctoSQLValue
+//@   requires wellT(t)
+//@   ensures missing: value == nil ==> result0.TypeID == 0 && result1 == (t.TypeID == 0)
+//@   ensures matches: result1 ==> matches(result0, t)
+//@   loop 1 invariant elements: 0 <= $k && $k <= len(arr) && len(values) == len(arr) && (outOk ==> forall(j, 0, $k, matches(values[j], deref(t.List.Element))))
+//@   loop 2 invariant fields: 0 <= $k && $k <= len(t.Struct.Fields) && len(values) == len(t.Struct.Fields) && (outOk ==> forall(j, 0, $k, matches(values[j], t.Struct.Fields[j].Type)))
+
+// The parser worker (a goroutine literal in the initializer of parserWorkReceiveChannel): every line of a job gets a
+// result; a line that does not parse, is not an object, or holds a value that does not inhabit its column's
+// type is reported as an error — otherwise the record's values inhabit the schema's types.
+// jobs handed to the workers carry the datasource's (well-formed) schema and one data line per line number
+//@ chan jobIn assumes job: len(msg.lines) == len(msg.data) && forall(q, 0, len(msg.fields), wellT(msg.fields[q].Type))
+//@ func init$lit1$lit1
+//@   loop 2 step typed: out.err == nil ==> len(out.record.Values) == len(job.fields) && forall(q, 0, len(job.fields), matches(out.record.Values[q], job.fields[q].Type))
+//@   loop 3 invariant cells: 0 <= $k && $k <= len(values) && len(values) == len(job.fields) && forall(q, 0, $k, matches(values[q], job.fields[q].Type))
